@@ -44,6 +44,11 @@ def run(ck):
             # removeKey() racing tryConsume()'s slow path (insert, then a second findAndModify): key z is only ever touched here
             progs.append("a=" + ",".join(ck.rng.choice(["C1z", "C1z", "C1x"]) for _ in range(ck.rng.randint(1, 3))))
             progs.append("b=" + ",".join(ck.rng.choice(["Rz", "Rz", "C1x"]) for _ in range(ck.rng.randint(1, 3))))
+        elif i % 8 == 3:
+            # cleanup()'s two passes against a caller drawing from the bucket in between: d * rate >= burst, so an ATOMIC cleanup is invisible
+            rate = 1; burst = 2
+            progs.append("a=C2x,S,S,S,O,K2,C2x")
+            progs.append("b=G,C2x" + ck.rng.choice(["", ",C1x"]))
         elif i % 2 == 0:
             ops = [ck.rng.choice(["C1x", "C1x", "C2x", "C3x", "S", "S", "Q", "W1", "W2", "W4"]) for _ in range(ck.rng.randint(4, 12))]
             progs.append("a=" + ",".join(ops))
@@ -77,6 +82,20 @@ def run(ck):
                 "removeKey() ran between the slow path's insert and its second findAndModify; seen in %d executions, first: %s" % (len(obs), lines[obs[0]]))
     else:
         ck.note("observation O-26a (removeKey racing tryConsume's slow path) not reproduced by this run's schedules")
+    obs2 = []
+    for x, e in enumerate(execs):
+        evs = e[1]; b = next((q for q in evs if q.get("e") == "Begin"), None)
+        if not b or not any(q.get("e") == "Cleanup" for q in evs):
+            continue
+        g = [q for q in evs if q.get("e") == "Consume" and q.get("ok") and q["k"] == "x"]
+        tm = max([q["t1"] for q in g] + [0])
+        if any(sum(q["n"] for q in g if q["t0"] >= s0 and q["t1"] <= u) > b["burst"] + b["rate"] * (u - s0) for s0 in range(tm + 1) for u in range(s0, tm + 1)):
+            obs2.append(x)
+    if obs2:
+        ck.note("OBSERVATION O-26b (Obs_CleanupEvictsBusyBucket): RateLimiterMap::cleanup erases a bucket that was drawn from between its two passes; the "
+                "re-created bucket is full and the key is granted more than burst + rate * length - seen in %d executions, first: %s" % (len(obs2), lines[obs2[0]]))
+    else:
+        ck.note("observation O-26b (cleanup()'s two passes racing a caller) not reproduced by this run's schedules")
     ck.sample({"kind": "token bucket execution", "case": lines[0], "events": execs[0][1][:10]})
     if not v.accepted:
         x = vf.exec_index_of_line(events, v.maxl)
